@@ -412,6 +412,9 @@ _FRESH_CALLS = ('np.zeros', 'np.ones', 'np.empty', 'np.eye', 'np.arange', 'np.ma
                 'np.dtype', 'np.concatenate', 'np.stack', 'np.iinfo', 'np.finfo', 'len', 'max', 'min', 'range', 'int', 'float',
                 'bool', 'tuple', 'isinstance', 'decode_frame', 'apply_lut', 'apply_voi_window', '_get_unsigned_dtype',
                 'ValueError', 'RuntimeError', 'TypeError', 'IndexError', 'nullcontext')
+_MUTATING_METHODS = ('sort', 'fill', 'put', 'resize', 'itemset', 'setfield', 'setflags', 'partition', 'byteswap', 'append',
+                     'extend', 'insert', 'remove', 'pop', 'clear', 'update', 'setdefault', 'reverse')
+_MUTATING_CALLS = ('np.copyto', 'np.put', 'np.place', 'np.putmask', 'np.fill_diagonal')
 _VIEW_CALLS = ('np.asarray', 'np.atleast_1d', 'np.atleast_2d', 'np.atleast_3d', 'np.squeeze', 'np.reshape', 'np.transpose')
 
 
@@ -494,6 +497,7 @@ def _effects(fn, fresh_self_calls=()):
             cls = _classify(node.value, fresh_self_calls)
             for t in node.targets:
                 add_target(t, False, cls)
+            self.visit(node.value)
 
         def visit_AnnAssign(self, node):
             if node.value is not None:
@@ -501,6 +505,7 @@ def _effects(fn, fresh_self_calls=()):
 
         def visit_AugAssign(self, node):
             add_target(node.target, True, _classify(node.value, fresh_self_calls))
+            self.visit(node.value)
 
         def visit_For(self, node):
             add_target(node.target, False, ('unknown', _names(node.iter)))
@@ -516,6 +521,18 @@ def _effects(fn, fresh_self_calls=()):
 
         def visit_NamedExpr(self, node):
             add_target(node.target, False, _classify(node.value, fresh_self_calls))
+
+        def visit_Call(self, node):
+            # `f(..., out=x)` writes into x; `x.sort()`, `x.fill(v)`, `np.copyto(x, y)` ... mutate x
+            for kw in node.keywords:
+                if kw.arg == 'out' and not (isinstance(kw.value, ast.Constant) and kw.value.value is None):
+                    add_target(kw.value, True, ('fresh', []))
+            f = node.func
+            if isinstance(f, ast.Attribute) and f.attr in _MUTATING_METHODS and base_of(f.value) is not None:
+                add_target(f.value, True, ('fresh', []))
+            if ast.unparse(f) in _MUTATING_CALLS and node.args:
+                add_target(node.args[0], True, ('fresh', []))
+            self.generic_visit(node)
 
         def visit_FunctionDef(self, node):
             raise Unsupported('nested function in ' + fn.name)
